@@ -94,6 +94,20 @@ class P:
             for v in vals[:258]:
                 bad.append(X.case(["sh"], X.NOGLOB, {"IFS": ifs, "v": v}, 0, [X.P("v")]))
 
+        # a tilde-prefix at the start of the word: resolved (HOME, a known user) it is quoted text, unresolved it is ordinary
+        # unquoted text and cut at IFS characters like any other
+        import os
+        root = C.run_harness("users", [hx("root")])[0]
+        os.environ["VERIF_USERS"] = ("%s=%s" % (hx("root"), root)) if root != "-" else ""
+        til = []
+        for first in ("~", "~nosuchuser_c14", "~root", "~no such", "~:x", "~nosuchuser_c14:x", "~root:x", "~/a:b", "~nosuchuser_c14/p q", "~~", "~-", "~a~b"):
+            for rest in ([], [X.L(":y")], [X.Q('"', X.L("q:r"))], [X.P("v")], [X.L(" z")]):
+                for ifs in (None, " \t\n", ":", "~", "/", ":~ ", ""):
+                    for home in ("/home/u", None, "", "/h o:me"):
+                        vs = {"IFS": ifs, "HOME": home, "v": "a:b c"}
+                        til.append(X.case(["sh"], X.NOGLOB, vs, 0, [X.L(first)] + rest))
+                        til.append(X.case(["sh"], X.NOGLOB, vs, 0, [X.L("x=" + first)] + rest))
+
         def nontrivial(c):
             w = c.split("\t")[4]
             return w.count(" ") >= 1 and ("P" in w or any(x in w for x in ("L20", "L2c", "L3a", "L09")))
@@ -101,6 +115,8 @@ class P:
                  "distribution": {"max_segments": N, "ifs_settings": len(IFS_SETS), "cases": nex}},
                 {"name": "random", "harness": "xp", "driver": "xp14", "cases": rc, "nontrivial": nontrivial,
                  "distribution": {"cases": nrand}},
+                {"name": "tilde-prefix", "harness": "xp", "driver": "xp14", "cases": til, "nontrivial": lambda c: True,
+                 "distribution": {"cases": len(til)}},
                 {"name": "invalid-utf8", "harness": "xp", "driver": "xp14", "cases": bad, "nontrivial": lambda c: "P" in c.split("\t")[4],
                  "distribution": {"cases": len(bad), "ifs_settings": len(bifs)}}]
 
